@@ -15,33 +15,45 @@ def xml_escape(s):
     return s.replace("&", "&amp;").replace("<", "&lt;").replace(">", "&gt;")
 
 
-def pin_xml(p):
-    e = ""
+def element_xml(name, entries, var):
+    """one <visualElement>. `var` (None = the layout Digital writes) varies what the statement does not fix: the order of the
+    element's children, the order of its attribute entries, and unrelated entries - one of them with a VALUE that reads like a key"""
+    if var is not None:
+        extra = ['<entry><string>rotation</string><rotation rotation="3"/></entry>',
+                 '<entry><string>Description</string><string>' + var.choice(["Label", "Bits", "Testdata", "InDefault", "x"]) + '</string></entry>']
+        entries = entries + [x for x in extra if var.random() < 0.5]
+        var.shuffle(entries)
+    parts = [f"<elementName>{name}</elementName>", "<elementAttributes>" + "".join(entries) + "</elementAttributes>", '<pos x="0" y="0"/>']
+    if var is not None:
+        var.shuffle(parts)
+    return "<visualElement>" + "".join(parts) + "</visualElement>"
+
+
+def pin_xml(p, var=None):
+    e = []
     if p.get("label") is not None:
-        e += f"<entry><string>Label</string><string>{xml_escape(p['label'])}</string></entry>"
+        e.append(f"<entry><string>Label</string><string>{xml_escape(p['label'])}</string></entry>")
     if p.get("bits") is not None:
-        e += f"<entry><string>Bits</string><int>{p['bits']}</int></entry>"
+        e.append(f"<entry><string>Bits</string><int>{p['bits']}</int></entry>")
     d = p.get("default")
     if d is not None:
         if d == "Z":
             # Digital writes both attributes; `zonly`: only z
-            e += ('<entry><string>InDefault</string><value z="true"/></entry>' if p.get("zonly") else
-                  f'<entry><string>InDefault</string><value v="{p.get("zv", 0)}" z="true"/></entry>')
+            e.append('<entry><string>InDefault</string><value z="true"/></entry>' if p.get("zonly") else
+                     f'<entry><string>InDefault</string><value v="{p.get("zv", 0)}" z="true"/></entry>')
         else:
-            e += f'<entry><string>InDefault</string><value v="{d}" z="false"/></entry>'
-    return (f"<visualElement><elementName>{p['kind']}</elementName><elementAttributes>{e}</elementAttributes>"
-            '<pos x="0" y="0"/></visualElement>')
+            e.append(f'<entry><string>InDefault</string><value v="{d}" z="false"/></entry>')
+    return element_xml(p["kind"], e, var)
 
 
-def test_xml(t):
-    l = f"<entry><string>Label</string><string>{xml_escape(t['label'])}</string></entry>" if t.get("label") is not None else ""
-    return ("<visualElement><elementName>Testcase</elementName><elementAttributes>" + l +
-            f"<entry><string>Testdata</string><testData><dataString>{xml_escape(t['source'])}</dataString></testData></entry>"
-            '</elementAttributes><pos x="0" y="0"/></visualElement>')
+def test_xml(t, var=None):
+    e = [f"<entry><string>Label</string><string>{xml_escape(t['label'])}</string></entry>"] if t.get("label") is not None else []
+    e.append(f"<entry><string>Testdata</string><testData><dataString>{xml_escape(t['source'])}</dataString></testData></entry>")
+    return element_xml("Testcase", e, var)
 
 
-def render(desc):
-    els = [pin_xml(e) if "kind" in e else test_xml(e) for e in desc]
+def render(desc, var=None):
+    els = [pin_xml(e, var) if "kind" in e else test_xml(e, var) for e in desc]
     return ('<?xml version="1.0" encoding="utf-8"?>\n<circuit>\n<version>2</version><attributes/><visualElements>\n'
             + "\n".join(els) + "\n</visualElements><wires/></circuit>\n")
 
@@ -199,6 +211,9 @@ HAND = [
     [P("In", "A"), P("In", "B", 2, "Z"), P("Out", "Y"), T("t1", "A B Y\n0 0 0\n"), T("t2", "B B_out\n1 1\n")],
     # duplicate labels
     [P("In", "A", 1, 1), P("In", "A", 2, 3), P("Out", "Y"), T("t", "A A_out Y\n0 0 0\n")],
+    # labels that read like attribute keys or element names
+    [P("In", "Bits", 4, 1), P("In", "Label", 2), P("Out", "InDefault", 3), P("Out", "Testdata"), P("Clock", "In"), P("Out", "Out", 2),
+     T("Testdata", "Bits Label InDefault Testdata\n0 0 0 0\n"), T("Label", "Bits InDefault\n1 1\n"), T("Bits", "In Out\nC 0\n")],
     [P("In", "A"), P("Out", "A"), T("t", "A A_out\n0 0\n")],
 ]
 
@@ -236,6 +251,11 @@ def run(thorough=False, seed=0):
     run_scenario.build()
     descs = HAND + enumerated(None if thorough else 600, seed)
     docs = [render(d) for d in descs]
+    # the same descriptions in layouts the statement does not distinguish (child order, entry order, unrelated entries)
+    vr = random.Random(f"layout/{seed}")
+    vdescs = HAND * (6 if thorough else 3) + enumerated(None if thorough else 600, seed)[:(2000 if thorough else 200)]
+    descs = descs + vdescs
+    docs = docs + [render(d, vr) for d in vdescs]
     res, _ = run_docs(docs, load=True)
     fails = []
     for prof, outs in res.items():
